@@ -467,10 +467,16 @@ def run(ctx, report):
         if isinstance(c.row.afs, int) and not c.modifs.get(E['mmx']):
             sdv = c.modifs.get(E['sd'])
             if sdv is not None:
-                S = {True: afs.f32, False: afs.f64, 'fp80': afs.f80}.get(sdv)
+                # operand sizes of the memory and the register form: the size statements / rejection guards of the /digit branch of _dis, evaluated
+                ms = X.dis_operand_sizes(c.name, c.modifs, c.row.rm, c.opc, c.row.afs, True)
+                rs = X.dis_operand_sizes(c.name, c.modifs, c.row.rm, c.opc, c.row.afs, False)
+                if ms in ('rejected', 'never'):
+                    R2.ok('dict_to_ad:%s' % c.row.key(), nontrivial=False)
+                    continue
+                S = ms[1]
                 live_reg = any((p[-1] >= 0xC0) for p, cc in X.cells.items() if cc.row is c.row and cc.modifs == c.modifs)
-                reg_form_possible = E['rmr'] not in c.row.rm and live_reg
-                S_reg = afs.u32 if S == afs.f64 else S
+                reg_form_possible = live_reg and not isinstance(rs, str)
+                S_reg = rs[1] if not isinstance(rs, str) else None
                 inst = 'dict_to_ad:%s' % c.row.key()
                 if reg_form_possible and S_reg not in tab32_keys:
                     R2.violation(inst, 'dict_to_ad:tab32:%s:%s' % (c.name, S), 'row %s decodes a register form (mod=3) with operand size %s, which dict_to_ad\'s register table '
@@ -513,6 +519,69 @@ def run(ctx, report):
                          witness="asm('mov eax, 4-foo') -> TypeError" if 'dict({}' in norm(n) else None)
         if not n_sites:
             R3.ok(q, nontrivial=False)
+
+    # dict displays subscripted in the assembler: the key is either table-derived (evaluated over every row variant that satisfies the
+    # table-evaluable guards of the site) and always present, or the lookup is a KeyError on operands the caller chooses
+    n_lit = 0
+    for q, fn in asm_funcs:
+        if not q.startswith('x86'):
+            continue
+        for n in walk_no_nested(fn):
+            if not (isinstance(n, ast.Subscript) and isinstance(n.value, ast.Dict) and isinstance(n.ctx, ast.Load)):
+                continue
+            n_lit += 1
+            key_txt = u(n.slice)
+            site = '%s:%s[%s]' % (q, norm(n.value)[:50], key_txt)
+            conds = path_conditions(n, fn)
+            atoms = []
+            for t_, pol_ in conds:
+                atoms += conjuncts(t_, pol_)
+            if any(isinstance(t_, ast.Compare) and pol_ and isinstance(t_.ops[0], ast.In) and u(t_.left) == key_txt for t_, pol_ in atoms):
+                R3.ok(site, sample='%s: the key is tested for membership first' % site)
+                continue
+            missing, evaluated = None, 0
+            for c in D.variants:
+                cobj = Obj('c')
+                cobj.name, cobj.modifs, cobj.rm, cobj.afs, cobj.opc = c.name, dict(c.modifs), list(c.row.rm), c.row.afs, list(c.opc)
+                for d_ in (list(c.row.rm) or [None]):
+                    env = dict(D.base)
+                    env.update({'c': cobj, 'afs': c.row.afs, 'dibs': list(c.row.rm), 'dib': d_, 'name': c.name})
+                    ev_ = Evaluator(env)
+                    ok_ = True
+                    for t_, pol_ in atoms:
+                        try:
+                            if bool(ev_.ev(t_)) != pol_:
+                                ok_ = False
+                                break
+                        except (NotConst, Exception):
+                            continue
+                    if not ok_:
+                        continue
+                    try:
+                        kv = ev_.ev(n.slice)
+                        keys = set(ev_.ev(k_) for k_ in n.value.keys)
+                    except (NotConst, Exception):
+                        kv = keys = None
+                    if keys is None:
+                        missing = ('operand', None)
+                        break
+                    evaluated += 1
+                    if kv not in keys:
+                        missing = ('row', (c, kv))
+                        break
+                if missing:
+                    break
+            if missing is None and evaluated:
+                R3.ok(site, sample='%s: every table value of the key is a key of the dictionary (%d row variants)' % (site, evaluated))
+            elif missing and missing[0] == 'row':
+                c, kv = missing[1]
+                R3.violation(site, 'dict-key:%s' % site, 'row %s gives the key %r, which the dictionary display does not contain: KeyError instead of a ValueError / empty candidate list'
+                             % (c.row.key(), kv), where(arch, n))
+            else:
+                R3.violation(site, 'dict-key:%s' % site, 'the key `%s` comes from the operands the caller wrote and is not tested for membership: an operand size the display does not list '
+                             'raises KeyError instead of giving no candidate' % key_txt, where(arch, n), witness="asm('fld [eax]') raises KeyError(True)")
+    if n_lit == 0:
+        R3.note('no dictionary display is subscripted in the assembler')
 
     # -------------------------------------------------------------- D4 truncation / streams / progress
     R4 = report.rule('C10.D4', 'truncated input is reported as absent; reads are bounds-checked; loops make progress', floor=12)
@@ -811,6 +880,7 @@ def from_att_total(ctx, R, arch):
 
 
 MUTANTS = [
+    ('x87-size-keyerror', 'miasmx/arch/ia32_arch.py', "x86_afs.f32:x86_afs.f32, x86_afs.f64:x86_afs.f64}.get(size)", "x86_afs.f32:x86_afs.f32, x86_afs.f64:x86_afs.f64}[size]", 'C10.D3'),
     ('dis-failure-no-rewind', 'miasmx/arch/ia32_arch.py', "            if init_offset is not None:\n                # nothing was decoded: leave the stream where it was\n                op.offset = init_offset\n", "", 'C10.D4'),
     ('rekey-while-iterating', 'miasmx/arch/ia32_arch.py', "                    for x in list(tmp_order[1]):", "                    for x in tmp_order[1]:", 'C10.D3'),
     ('dis-new-raise', 'miasmx/arch/ia32_arch.py', "            elif afs == reg:\n                mafs = dict(x86mndb.get_afs_re(c&(0xFF^mask_reg)))\n",
